@@ -2,6 +2,7 @@ import S2T.Lemmas.Units
 import S2T.Gen.Units
 import S2T.Props.C03_Bound
 import S2T.Props.C03_Src
+import S2T.Props.C03_Carrier
 /-!
 # C03 — Units mirror pages / slides / sheets / chapters / messages
 
